@@ -11,7 +11,7 @@ from typing import Iterable, Iterator, Optional
 from clingo.ast import AST, ASTType, Sign
 
 from ngo.normalize import inline_arithmetic
-from ngo.utils.ast import Predicate, SignedPredicate, headderivable_predicates, is_predicate
+from ngo.utils.ast import Predicate, SignedPredicate, collect_ast, headderivable_predicates, is_predicate
 
 log = logging.getLogger(__name__)
 
@@ -45,7 +45,8 @@ class CleanupTranslator:
                 body_symbol = cond.atom.symbol
                 var_map: list[int] = []
                 for arg in body_symbol.arguments:
-                    if arg in head_symbol.arguments:
+                    # an interval stands for a different value at every occurrence
+                    if arg in head_symbol.arguments and not collect_ast(arg, "Interval"):
                         var_map.append(head_symbol.arguments.index(arg))
                 if len(var_map) == len(body_symbol.arguments):
                     yield Mapping(
